@@ -13,8 +13,10 @@
    * Models with a fuelled loop: CBOR and Monero-Base58 decoders have their fuel bounded by the input length inside
      the contributors' error lemmas (OutOfFuel unreachable); the master-key loop's termination is probabilistic, its
      statement is [in_family_or_fuel].
-   * Entry points not listed here (Bech32 / SegWit / CashAddr codecs, Cardano and Monero addresses, wallet-level
-     constructors) are covered by the differential fuzz of harness/props/C14.py only; the evidence lists them.
+   * Sections 10-13 (second wave) cover the Cardano and Monero addresses, the Khovratovich-Law / Icarus / Byron-legacy
+     key classes and the wallet-level constructors; with them every census entry point of harness/props/C14.py has a
+     theorem about its model.  Where the faithful model leaves the family the full statement is refuted by a witness
+     and the guard under which it holds is proved ([kholaw_child_key_refuted] / [_partial]; finding C14-KHOLAW-OVERFLOW).
 
    PATTERN for a new entry point: no-escape lemma in Lemmas/NoEscape<Area>.v (see the header of Lemmas/NoEscape.v),
    theorem here by [exact], entry in MODEL_MAP of harness/props/C14.py. *)
@@ -601,3 +603,297 @@ Theorem electrum_v1_constructors_no_escape : forall (G : Type) deser b,
   in_family (ElectrumWallet.v1_from_private_key G b) = true /\ in_family (ElectrumWallet.v1_from_public_key G deser b) = true.
 Proof. intros; split; [exact (NoEscapeAddr.electrum_v1_from_private_key_family G b)|exact (NoEscapeAddr.electrum_v1_from_public_key_family G deser b)]. Qed.
 Print Assumptions electrum_v1_constructors_no_escape.
+
+(* ================================================================== 10. Monero: addresses, keys, wallets *)
+(* Second wave (Lemmas/NoEscapeMonero.v, NoEscapeCardano.v, NoEscapeWallets.v; thin compositions in Model/C14b.v).
+   With these, every one of the 237 census entry points of harness/props/C14.py has a theorem about its model. *)
+From BU Require Model.AddrXmr Model.Monero Model.AddrAdaShelley Model.AddrAdaByron Model.Bip32Kholaw Model.ByronLegacyDeriv
+                Model.Bip44 Model.Cbor Model.C14b Gen.ConstsCardmon.
+From BU Require Lemmas.NoEscapeMonero Lemmas.NoEscapeCardano Lemmas.NoEscapeWallets.
+
+(* XmrAddrDecoder.DecodeAddr(str, net_ver) / XmrIntegratedAddrDecoder.DecodeAddr(str, net_ver, payment_id): arbitrary
+   Keccak and point decoding; the block decoder's fuel (input length + 1) is shown never to run out *)
+Theorem xmr_addr_decode_no_escape : forall (keccak : list N -> list N) (G : Type) (pdec : list N -> option G) addr net payid,
+  in_family (AddrXmr.decode_addr keccak G pdec addr net payid) = true.
+Proof. exact NoEscapeMonero.xmr_decode_addr_family. Qed.
+Print Assumptions xmr_addr_decode_no_escape.
+
+(* MoneroPrivateKey.FromBytes / MoneroPublicKey.FromBytes *)
+Theorem monero_keys_no_escape : forall (G : Type) (pdec : list N -> option G) b,
+  in_family (Monero.priv_from_bytes b) = true /\ in_family (Monero.pub_from_bytes G pdec b) = true.
+Proof. intros; split; [exact (NoEscapeMonero.monero_priv_from_bytes_family b)|exact (NoEscapeMonero.monero_pub_from_bytes_family G pdec b)]. Qed.
+Print Assumptions monero_keys_no_escape.
+
+(* Monero.FromSeed / FromPrivateSpendKey / FromBip44PrivateKey(bytes) / FromWatchOnly: libsodium's refusal of a zero
+   scalar is the ValueError of fix F21; the TypeError of a scalar that is not 32 bytes long is unreachable *)
+Theorem monero_wallet_constructors_no_escape : forall (keccak : list N -> list N) (G : Type) gmul gbase g_is_zero penc pdec
+    (b vb pb : list N) net,
+  in_family (Monero.from_seed keccak G gmul gbase g_is_zero penc b net) = true /\
+  in_family (Monero.from_priv_spend keccak G gmul gbase g_is_zero penc b net) = true /\
+  in_family (Monero.from_bip44_priv keccak G gmul gbase g_is_zero penc b net) = true /\
+  in_family (Monero.from_watch_only G gmul gbase g_is_zero penc pdec vb pb net) = true.
+Proof.
+  intros. split; [exact (NoEscapeMonero.from_seed_family _ _ _ _ _ _ _ _)|]. split; [exact (NoEscapeMonero.from_priv_spend_family _ _ _ _ _ _ _ _)|].
+  split; [exact (NoEscapeMonero.from_bip44_priv_family _ _ _ _ _ _ _ _)|exact (NoEscapeMonero.from_watch_only_family _ _ _ _ _ _ _ _ _)].
+Qed.
+Print Assumptions monero_wallet_constructors_no_escape.
+
+(* ================================================================== 11. Cardano addresses *)
+(* AdaShelleyAddrDecoder / AdaShelleyStakingAddrDecoder / AdaShelleyRewardAddrDecoder .DecodeAddr over any Bech32 decoder
+   (the model turns every refusal of that layer into ValueError, as the library does) *)
+Theorem ada_shelley_decoders_no_escape : forall (b32_dec : list N -> list N -> option (list N)) net addr,
+  in_family (AddrAdaShelley.decode_payment b32_dec net addr) = true /\
+  in_family (AddrAdaShelley.decode_staking b32_dec net addr) = true.
+Proof. intros; split; [exact (NoEscapeCardano.decode_payment_family _ _ _)|exact (NoEscapeCardano.decode_staking_family _ _ _)]. Qed.
+Print Assumptions ada_shelley_decoders_no_escape.
+(* ... on the concrete Bech32 decoder of Model/Bech32.v *)
+Definition bech32_dec_opt (hrp s : list N) : option (list N) :=
+  match Bech32.bech32_decode hrp s with inl d => Some d | inr _ => None end.
+Theorem ada_shelley_decoders_concrete_no_escape : forall net addr,
+  in_family (AddrAdaShelley.decode_payment bech32_dec_opt net addr) = true /\
+  in_family (AddrAdaShelley.decode_staking bech32_dec_opt net addr) = true.
+Proof. exact (ada_shelley_decoders_no_escape bech32_dec_opt). Qed.
+Print Assumptions ada_shelley_decoders_concrete_no_escape.
+
+(* AdaByronAddrDecoder.DecodeAddr: Base58, then cbor2 on untrusted bytes (three oracles, arbitrary), CRC-32 (arbitrary).
+   The model is the behaviour the property demands; /repo lets TypeError escape on ill-typed CBOR fields (findings
+   C14-BYRON-ATTRS, C14-BYRON-CBOR2-EXC, shown by the correspondence run) *)
+Theorem ada_byron_decode_no_escape : forall (crc32 : list N -> N) parse_outer parse_payload parse_bytes addr,
+  in_family (AddrAdaByron.decode_addr crc32 parse_outer parse_payload parse_bytes addr) = true.
+Proof. exact NoEscapeCardano.byron_decode_addr_family. Qed.
+Print Assumptions ada_byron_decode_no_escape.
+
+(* AdaByronAddrDecoder.DecryptHdPath(bytes, key) -- library-faithful (Model/C14b.v, on the C11 model of the array
+   decoder) and as modelled for C18 --, CardanoByronLegacy.HdPathFromAddress(str); arbitrary AEAD / KDF oracles *)
+Theorem ada_byron_hd_path_no_escape : forall pbkdf2 (chacha_dec : list N -> list N -> list N -> list N -> list N -> option (list N))
+    (crc32 : list N -> N) parse_outer parse_payload parse_bytes key enc master addr,
+  in_family (C14b.byron_decrypt_path chacha_dec key enc) = true /\
+  in_family (AddrAdaByron.decrypt_path chacha_dec key enc) = true /\
+  in_family (AddrAdaByron.hd_path_from_address pbkdf2 chacha_dec crc32 parse_outer parse_payload parse_bytes master addr) = true.
+Proof.
+  intros. split; [exact (NoEscapeCardano.byron_decrypt_path_family _ _ _)|].
+  split; [exact (NoEscapeCardano.byron_model_decrypt_path_family _ _ _)|exact (NoEscapeCardano.byron_hd_path_from_address_family _ _ _ _ _ _ _ _)].
+Qed.
+Print Assumptions ada_byron_hd_path_no_escape.
+
+(* ================================================================== 12. Khovratovich-Law family: Bip32KholawEd25519, CardanoIcarusBip32,
+                                                                          CardanoByronLegacyBip32 *)
+Import BU.Model.Bip32Kholaw BU.Gen.ConstsCardmon.
+
+(* Bip32Base.__init__(priv_key = bytes, ...) behind FromPrivateKey / FromExtendedKey / every derived child: any byte
+   string (mul_base's TypeError for a scalar that is not 32 bytes is unreachable after the length checks) *)
+Theorem kholaw_node_from_priv_no_escape : forall (G : Type) gmul gbase g_is_zero penc k cc d,
+  in_family (node_from_priv G gmul gbase g_is_zero penc k cc d) = true.
+Proof. exact NoEscapeCardano.node_from_priv_family. Qed.
+Print Assumptions kholaw_node_from_priv_no_escape.
+
+(* <class>.FromSeed(bytes) (and CardanoByronLegacy.FromSeed, Cip1852.FromSeed on top).  Hypotheses: the digest sizes --
+   a shorter digest would make the model's kl[31] an IndexError.  Kholaw and Byron re-hash in a loop: in the family or
+   out of fuel *)
+Theorem kholaw_from_seed_no_escape : forall (hmac512 hmac256 : list N -> list N -> list N) pbkdf2 (sha512 : list N -> list N)
+    (G : Type) gmul gbase g_is_zero penc fuel seed,
+  (forall k m, length (hmac512 k m) = 64%nat) -> (forall p s r n, length (pbkdf2 p s r n) = N.to_nat n) ->
+  (forall x, length (sha512 x) = 64%nat) ->
+  NoEscapeDeriv.in_family_or_fuel (kh_from_seed hmac512 hmac256 G gmul gbase g_is_zero penc fuel seed) = true /\
+  in_family (ic_from_seed pbkdf2 G gmul gbase g_is_zero penc seed) = true /\
+  NoEscapeDeriv.in_family_or_fuel (ByronLegacyDeriv.by_from_seed hmac512 sha512 G gmul gbase g_is_zero penc fuel seed) = true.
+Proof.
+  intros hmac512 hmac256 pbkdf2 sha512 G gmul gbase g_is_zero penc fuel seed H1 H2 H3.
+  split; [exact (NoEscapeCardano.kh_from_seed_fof hmac512 hmac256 G gmul gbase g_is_zero penc H1 fuel seed)|].
+  split; [exact (NoEscapeCardano.ic_from_seed_family pbkdf2 G gmul gbase g_is_zero penc H2 seed)|
+          exact (NoEscapeCardano.by_from_seed_fof hmac512 sha512 G gmul gbase g_is_zero penc H3 fuel seed)].
+Qed.
+Print Assumptions kholaw_from_seed_no_escape.
+Example kholaw_from_seed_hyps_ex :
+  (forall k m : list N, length (repeat 0%N 64) = 64%nat) /\ (forall (p s : list N) (r n : N), length (repeat 0%N (N.to_nat n)) = N.to_nat n).
+Proof. split; intros; [reflexivity|apply repeat_length]. Qed.
+Print Assumptions kholaw_from_seed_hyps_ex.
+
+(* ChildKey(int) on a private object.  FULL STATEMENT (false of the faithful model and of /repo):
+     forall hmac G ... d n i, in_family (child_key hmac G gadd gmul gbase g_is_zero penc pdec d n i) = true
+   Refuted for the Khovratovich-Law derivator: the 32-byte rendering of 8*zL + kL overflows for a parent with
+   kL >= 2^256 - 2^227, which FromPrivateKey / FromExtendedKey accept (finding C14-KHOLAW-OVERFLOW) *)
+Theorem kholaw_child_key_refuted : exists (hmac : list N -> list N -> list N) (n : node) (i : Z),
+  node_from_priv unit (fun _ _ => tt) tt (fun _ => false) (fun _ => repeat 0%N 32) (repeat 255%N 64) (repeat 0%N 32) 0 = Ok n /\
+  child_key hmac unit (fun _ _ => tt) (fun _ _ => tt) tt (fun _ => false) (fun _ => repeat 0%N 32) (fun _ => Some tt)
+    (kh_derivator unit (fun _ _ => tt) tt (fun _ => false) (fun _ => repeat 0%N 32)) n i = Err OverflowError.
+Proof.
+  exists NoEscapeCardano.refute_hmac, NoEscapeCardano.refute_node, 0%Z.
+  split; [exact NoEscapeCardano.refute_node_constructed|exact NoEscapeCardano.kh_child_key_overflows].
+Qed.
+Print Assumptions kholaw_child_key_refuted.
+(* What holds: a parent whose kL leaves room for one more 8*zL (< 2^227).  HMAC returns bytes. *)
+Theorem kholaw_child_key_partial : forall (hmac512 : list N -> list N -> list N) (G : Type) gadd gmul gbase g_is_zero penc pdec n k i,
+  (forall k m, bytes_ok (hmac512 k m)) -> n_priv n = Some k -> (NoEscapeCardano.KL k + 2 ^ 227 <= 2 ^ 256)%N ->
+  in_family (child_key hmac512 G gadd gmul gbase g_is_zero penc pdec (kh_derivator G gmul gbase g_is_zero penc) n i) = true.
+Proof. intros h G gadd gmul gbase z penc pdec n k i. exact (NoEscapeCardano.kh_child_key_partial_family h G gadd gmul gbase z penc pdec n k i). Qed.
+Print Assumptions kholaw_child_key_partial.
+Example kholaw_child_key_partial_ex : (NoEscapeCardano.KL (repeat 0%N 31 ++ [64%N] ++ repeat 0%N 32) + 2 ^ 227 <= 2 ^ 256)%N.
+Proof. vm_compute. discriminate. Qed.
+Print Assumptions kholaw_child_key_partial_ex.
+(* The derivator as the property demands it (Model/C14b.v kh_derivator_conformant: the child that does not fit 32 bytes is
+   discarded with Bip32KeyError; this is what fixes/C14-KHOLAW-OVERFLOW.diff makes the code do, and what the extracted
+   model of harness/props/C14.py runs): every private parent, every int, arbitrary HMAC -- and it is the code's
+   derivator wherever that one does not overflow *)
+Theorem kholaw_child_key_conformant_no_escape : forall (hmac512 : list N -> list N -> list N) (G : Type) gadd gmul gbase g_is_zero penc pdec n k i,
+  n_priv n = Some k ->
+  in_family (child_key hmac512 G gadd gmul gbase g_is_zero penc pdec (C14b.kh_derivator_conformant G gmul gbase g_is_zero penc) n i) = true.
+Proof. intros h G gadd gmul gbase z penc pdec n k i. exact (NoEscapeCardano.conf_child_key_family h G gadd gmul gbase z penc pdec n k i). Qed.
+Print Assumptions kholaw_child_key_conformant_no_escape.
+Theorem kholaw_new_left_conformant_agrees : forall zl kl, (zl8 zl + le_to_int kl < 2 ^ 256)%N ->
+  C14b.kh_new_left_conformant zl kl = kh_new_left zl kl.
+Proof. exact NoEscapeCardano.kh_new_left_conformant_agrees. Qed.
+Print Assumptions kholaw_new_left_conformant_agrees.
+Example kholaw_new_left_conformant_agrees_ex : (zl8 (repeat 255%N 32) + le_to_int (repeat 0%N 31 ++ [64%N]) < 2 ^ 256)%N.
+Proof. vm_compute. reflexivity. Qed.
+Print Assumptions kholaw_new_left_conformant_agrees_ex.
+(* The Byron-legacy derivator reduces mod l and adds byte-wise: every private parent, every int, arbitrary HMAC *)
+Theorem byron_legacy_child_key_no_escape : forall (hmac512 : list N -> list N -> list N) (G : Type) gadd gmul gbase g_is_zero penc pdec n k i,
+  n_priv n = Some k ->
+  in_family (child_key hmac512 G gadd gmul gbase g_is_zero penc pdec (ByronLegacyDeriv.by_derivator G gmul gbase g_is_zero penc) n i) = true.
+Proof. intros h G gadd gmul gbase z penc pdec n k i. exact (NoEscapeCardano.by_child_key_family h G gadd gmul gbase z penc pdec n k i). Qed.
+Print Assumptions byron_legacy_child_key_no_escape.
+
+(* <class>.FromSeedAndPath(seed, str) = FromSeed(seed).DerivePath(str).  The master key has kL < 2^255, every level adds
+   less than 2^227: room for 2^28 levels (a path string of more than 2^29 symbols would be needed to leave it) *)
+Theorem kholaw_from_seed_and_path_partial : forall (hmac512 hmac256 : list N -> list N -> list N) (G : Type) gadd gmul gbase g_is_zero
+    penc pdec fuel seed s,
+  (forall k m, length (hmac512 k m) = 64%nat) -> (forall k m, bytes_ok (hmac512 k m)) ->
+  (forall p, Bip32Path.parse s = Ok p -> (N.of_nat (length (Bip32Path.p_elems p)) <= 2 ^ 28)%N) ->
+  NoEscapeDeriv.in_family_or_fuel
+    (C14b.kh_from_seed_and_path_str hmac512 G gadd gmul gbase g_is_zero penc pdec (kh_derivator G gmul gbase g_is_zero penc)
+       (kh_from_seed hmac512 hmac256 G gmul gbase g_is_zero penc fuel) seed s) = true.
+Proof.
+  intros h h2 G gadd gmul gbase z penc pdec fuel seed s H1 H2 H3.
+  exact (NoEscapeCardano.kh_from_seed_and_path_str_fof h h2 G gadd gmul gbase z penc pdec H1 H2 fuel seed s H3).
+Qed.
+Print Assumptions kholaw_from_seed_and_path_partial.
+Theorem icarus_from_seed_and_path_partial : forall (hmac512 : list N -> list N -> list N) pbkdf2 (G : Type) gadd gmul gbase g_is_zero
+    penc pdec seed s,
+  (forall k m, bytes_ok (hmac512 k m)) ->
+  (forall p s r n, length (pbkdf2 p s r n) = N.to_nat n) -> (forall p s r n, bytes_ok (pbkdf2 p s r n)) ->
+  (forall p, Bip32Path.parse s = Ok p -> (N.of_nat (length (Bip32Path.p_elems p)) <= 2 ^ 28)%N) ->
+  in_family
+    (C14b.kh_from_seed_and_path_str hmac512 G gadd gmul gbase g_is_zero penc pdec (kh_derivator G gmul gbase g_is_zero penc)
+       (ic_from_seed pbkdf2 G gmul gbase g_is_zero penc) seed s) = true.
+Proof.
+  intros h pb G gadd gmul gbase z penc pdec seed s H1 H2 H3 H4.
+  exact (NoEscapeCardano.ic_from_seed_and_path_str_family h pb G gadd gmul gbase z penc pdec H1 seed s H2 H3 H4).
+Qed.
+Print Assumptions icarus_from_seed_and_path_partial.
+(* ... with the derivator the property demands: paths of any length (Bip32KholawEd25519 / CardanoIcarusBip32 / Cip1852) *)
+Theorem kholaw_from_seed_and_path_conformant_no_escape : forall (hmac512 hmac256 : list N -> list N -> list N) pbkdf2 (G : Type)
+    gadd gmul gbase g_is_zero penc pdec fuel seed s,
+  (forall k m, length (hmac512 k m) = 64%nat) -> (forall p s r n, length (pbkdf2 p s r n) = N.to_nat n) ->
+  NoEscapeDeriv.in_family_or_fuel
+    (C14b.kh_from_seed_and_path_str hmac512 G gadd gmul gbase g_is_zero penc pdec (C14b.kh_derivator_conformant G gmul gbase g_is_zero penc)
+       (kh_from_seed hmac512 hmac256 G gmul gbase g_is_zero penc fuel) seed s) = true /\
+  NoEscapeDeriv.in_family_or_fuel
+    (C14b.kh_from_seed_and_path_str hmac512 G gadd gmul gbase g_is_zero penc pdec (C14b.kh_derivator_conformant G gmul gbase g_is_zero penc)
+       (ic_from_seed pbkdf2 G gmul gbase g_is_zero penc) seed s) = true.
+Proof.
+  intros h h2 pb G gadd gmul gbase z penc pdec fuel seed s H1 H2.
+  split; [exact (NoEscapeCardano.conf_kh_from_seed_and_path_str_fof h h2 G gadd gmul gbase z penc pdec fuel seed s H1)|
+          exact (NoEscapeCardano.conf_ic_from_seed_and_path_str_family h pb G gadd gmul gbase z penc pdec seed s H2)].
+Qed.
+Print Assumptions kholaw_from_seed_and_path_conformant_no_escape.
+(* the path premise on a non-trivial path *)
+Example kholaw_path_premise_ex : forall p, Bip32Path.parse [109; 47; 52; 52; 39; 47; 49]%N = Ok p ->
+  (N.of_nat (length (Bip32Path.p_elems p)) <= 2 ^ 28)%N.
+Proof. intros p H. vm_compute in H. inversion H; subst. vm_compute. discriminate. Qed.
+Print Assumptions kholaw_path_premise_ex.
+(* CardanoByronLegacyBip32.FromSeedAndPath(seed, str): paths of any length *)
+Theorem byron_legacy_from_seed_and_path_no_escape : forall (hmac512 : list N -> list N -> list N) (sha512 : list N -> list N) (G : Type)
+    gadd gmul gbase g_is_zero penc pdec fuel seed s,
+  (forall x, length (sha512 x) = 64%nat) ->
+  NoEscapeDeriv.in_family_or_fuel
+    (C14b.kh_from_seed_and_path_str hmac512 G gadd gmul gbase g_is_zero penc pdec (ByronLegacyDeriv.by_derivator G gmul gbase g_is_zero penc)
+       (ByronLegacyDeriv.by_from_seed hmac512 sha512 G gmul gbase g_is_zero penc fuel) seed s) = true.
+Proof.
+  intros h sh G gadd gmul gbase z penc pdec fuel seed s H.
+  exact (NoEscapeCardano.by_from_seed_and_path_str_fof h sh G gadd gmul gbase z penc pdec fuel seed s H).
+Qed.
+Print Assumptions byron_legacy_from_seed_and_path_no_escape.
+
+(* ================================================================== 13. wallet-level constructors and key containers (Model/C14b.v) *)
+(* Bip44 / Bip49 / Bip84 / Bip86 / Cip1852 .FromExtendedKey(str, coin) / .FromPrivateKey(bytes, coin) / .FromPublicKey(bytes, coin):
+   the Bip32 class's constructor (section 5) followed by the depth check of Bip44Base.__init__ (Bip44DepthError) *)
+Theorem bip44_constructors_no_escape : forall (sha256 : list N -> list N) priv_ok pub_parse s v raw pk,
+  in_family (C14b.bip44_from_extended b58_alph_btc b58_radix b58_cklen sha256 priv_ok pub_parse s v) = true /\
+  in_family (C14b.bip44_from_private_key priv_ok pub_parse raw) = true /\
+  in_family (C14b.bip44_from_public_key priv_ok pub_parse pk) = true.
+Proof.
+  intros. split; [exact (NoEscapeWallets.bip44_from_extended_family _ _ _ _ _ _ _ _)|].
+  split; [exact (NoEscapeWallets.bip44_from_private_key_family _ _ _)|exact (NoEscapeWallets.bip44_from_public_key_family _ _ _)].
+Qed.
+Print Assumptions bip44_constructors_no_escape.
+(* ... .FromSeed(bytes, coin): relative to the master key of the coin's Bip32 class (section 7 for the SLIP-0010 classes,
+   section 12 for Cip1852 / the Cardano Bip44 coins) *)
+Theorem bip44_from_seed_no_escape : forall (K : Type) (master : res K),
+  NoEscapeDeriv.in_family_or_fuel master = true -> NoEscapeDeriv.in_family_or_fuel (C14b.bip44_from_seed master) = true.
+Proof. exact NoEscapeWallets.bip44_from_seed_fof. Qed.
+Print Assumptions bip44_from_seed_no_escape.
+(* ... on the concrete master keys: the SLIP-0010 classes (Bip44 / Bip49 / Bip84 / Bip86 coins on secp256k1, nist256p1,
+   ed25519) and the Icarus master key (Cip1852, Bip44 CARDANO_BYRON_ICARUS) *)
+Theorem bip44_from_seed_concrete_no_escape : forall (hmac512 : list N -> list N -> list N) D pbkdf2 (G : Type) gmul gbase g_is_zero penc fuel seed,
+  (forall p s r n, length (pbkdf2 p s r n) = N.to_nat n) ->
+  NoEscapeDeriv.in_family_or_fuel (C14b.bip44_from_seed (Bip32Slip10.from_seed hmac512 D fuel seed)) = true /\
+  NoEscapeDeriv.in_family_or_fuel (C14b.bip44_from_seed (ic_from_seed pbkdf2 G gmul gbase g_is_zero penc seed)) = true.
+Proof.
+  intros h D pb G gmul gbase z penc fuel seed H.
+  split; [exact (bip44_from_seed_no_escape _ _ (bip32_from_seed_no_escape h D fuel seed))|].
+  exact (bip44_from_seed_no_escape _ _ (NoEscapeDeriv.family_or_fuel_of_family _ (NoEscapeCardano.ic_from_seed_family pb G gmul gbase z penc H seed))).
+Qed.
+Print Assumptions bip44_from_seed_concrete_no_escape.
+Example bip44_from_seed_ex : NoEscapeDeriv.in_family_or_fuel (@Err N ValueError) = true /\
+  C14b.bip44_from_seed (Ok 7%N) = Ok (Bip44.mkState N 0 false 0 0 [] 7%N).
+Proof. split; reflexivity. Qed.
+Print Assumptions bip44_from_seed_ex.
+
+(* MoneroMnemonic.FromString / Bip39Mnemonic.FromString (inherited by the Algorand and Electrum containers): no error site;
+   CardanoIcarusSeedGenerator(str) / CardanoByronLegacySeedGenerator(str) *)
+Theorem mnemonic_containers_and_cardano_seeds_no_escape : forall (sha256 nfkd lower blake2b_256 : list N -> list N) langs lang s,
+  in_family (C14b.mnemonic_from_string s) = true /\ in_family (C14b.bip39_mnemonic_from_string nfkd lower s) = true /\
+  in_family (C14b.icarus_seed sha256 nfkd lower langs lang s) = true /\
+  in_family (C14b.byron_legacy_seed sha256 nfkd lower langs blake2b_256 lang s) = true.
+Proof.
+  intros. split; [exact (NoEscapeWallets.mnemonic_from_string_family s)|]. split; [exact (NoEscapeWallets.bip39_mnemonic_from_string_family nfkd lower s)|].
+  split; [exact (NoEscapeWallets.icarus_seed_family _ _ _ _ _ _)|exact (NoEscapeWallets.byron_legacy_seed_family _ _ _ _ _ _ _)].
+Qed.
+Print Assumptions mnemonic_containers_and_cardano_seeds_no_escape.
+
+(* Sr25519PrivateKey / Sr25519PublicKey .IsValidBytes, Sr25519Point.FromBytes, SubstratePrivateKey / SubstratePublicKey .FromBytes,
+   Substrate.FromPrivateKey / FromPublicKey / FromSeed (arbitrary sr25519 binding) *)
+Theorem sr25519_substrate_keys_no_escape : forall pub_of_secret pair_from_seed b,
+  in_family (C14b.sr_priv_is_valid b) = true /\ in_family (C14b.sr_pub_is_valid b) = true /\
+  in_family (C14b.sr_point_from_bytes b) = true /\
+  in_family (C14b.substrate_priv_from_bytes b) = true /\ in_family (C14b.substrate_pub_from_bytes b) = true /\
+  in_family (C14b.substrate_from_private_key pub_of_secret b) = true /\ in_family (C14b.substrate_from_public_key b) = true /\
+  in_family (C14b.substrate_from_seed pair_from_seed b) = true.
+Proof.
+  intros. split; [exact (proj1 (NoEscapeWallets.sr_is_valid_family b))|]. split; [exact (proj2 (NoEscapeWallets.sr_is_valid_family b))|].
+  split; [exact (NoEscapeWallets.sr_point_from_bytes_family b)|]. split; [exact (NoEscapeWallets.substrate_priv_from_bytes_family b)|].
+  split; [exact (NoEscapeWallets.substrate_pub_from_bytes_family b)|]. split; [exact (NoEscapeWallets.substrate_from_private_key_family _ b)|].
+  split; [exact (NoEscapeWallets.substrate_from_public_key_family b)|exact (NoEscapeWallets.substrate_from_seed_family _ b)].
+Qed.
+Print Assumptions sr25519_substrate_keys_no_escape.
+
+(* ElectrumV1.FromSeed(bytes); ElectrumV2Standard.FromSeed / ElectrumV2Segwit.FromSeed(bytes) relative to the secp256k1
+   master key (section 7) and child-key function *)
+Theorem electrum_from_seed_no_escape : forall (G obj : Type) ckd obj_depth (from_seed : list N -> res obj) seed,
+  (forall seed, NoEscapeDeriv.in_family_or_fuel (from_seed seed) = true) ->
+  (forall o i, NoEscapeDeriv.in_family_or_fuel (ckd o i) = true) ->
+  in_family (C14b.electrum_v1_from_seed G seed) = true /\
+  NoEscapeDeriv.in_family_or_fuel (C14b.electrum_v2_standard_from_seed obj obj_depth from_seed seed) = true /\
+  NoEscapeDeriv.in_family_or_fuel (C14b.electrum_v2_segwit_from_seed obj ckd obj_depth from_seed seed) = true.
+Proof.
+  intros G obj ckd od fs seed H1 H2. split; [exact (NoEscapeWallets.electrum_v1_from_seed_family G seed)|].
+  split; [exact (NoEscapeWallets.electrum_v2_standard_from_seed_fof obj od fs H1 seed)|
+          exact (NoEscapeWallets.electrum_v2_segwit_from_seed_fof obj ckd od fs H1 H2 seed)].
+Qed.
+Print Assumptions electrum_from_seed_no_escape.
+Example electrum_from_seed_hyps_ex :
+  (forall seed : list N, NoEscapeDeriv.in_family_or_fuel (@Err N OutOfFuel) = true) /\
+  C14b.electrum_v2_standard_from_seed N (fun o => o) (fun _ => Ok 0%N) [] = Ok 0%N.
+Proof. split; reflexivity. Qed.
+Print Assumptions electrum_from_seed_hyps_ex.
